@@ -438,3 +438,55 @@ Proof. exact GcIsoEx2.ax_ok. Qed.
 Example C03_example_alloc_free :
   free_list (hp GcIsoEx2.ax_vm1) = [1; 2; 3] /\ free_list (hp GcIsoEx2.ax_vm2) = [2; 3].
 Proof. exact GcIsoEx2.ax_free. Qed.
+
+(* builtins: [bsim ob b] = run_builtin ob b is a simulation (related results from related
+   states) and keeps the heap invariant; it is the side condition of CALL / TCALL of a builtin
+   in [covered_all].  Discharged for the real table (Model/Builtins.other_builtin, ids of
+   Gen/Builtins.v) for cons, not, null?, pair?, boolean?, symbol?, vector?, port?, and for
+   call/cc with any table. *)
+From MW Require Model.ListVec Model.Builtins Proofs.GcIsoBuiltin.
+Theorem C03_type_pred_iso : forall W p, GcIsoBuiltin.shape_only p ->
+  GcIsoPrim.sim W GcIso.vr (ListVec.type_pred p) (ListVec.type_pred p).
+Proof. exact GcIsoBuiltin.sim_type_pred. Qed.
+Print Assumptions C03_type_pred_iso.
+Theorem C03_builtin_cons_iso : GcIsoCall.bsim Builtins.other_builtin 24.
+Proof. exact GcIsoBuiltin.bsim_cons. Qed.
+Print Assumptions C03_builtin_cons_iso.
+Theorem C03_builtin_not_iso : GcIsoCall.bsim Builtins.other_builtin 83.
+Proof. exact GcIsoBuiltin.bsim_not. Qed.
+Print Assumptions C03_builtin_not_iso.
+Theorem C03_builtin_null_iso : GcIsoCall.bsim Builtins.other_builtin 84.
+Proof. exact GcIsoBuiltin.bsim_null. Qed.
+Print Assumptions C03_builtin_null_iso.
+Theorem C03_builtin_pair_iso : GcIsoCall.bsim Builtins.other_builtin 85.
+Proof. exact GcIsoBuiltin.bsim_pair. Qed.
+Print Assumptions C03_builtin_pair_iso.
+Theorem C03_builtin_boolean_iso : GcIsoCall.bsim Builtins.other_builtin 77.
+Proof. exact GcIsoBuiltin.bsim_boolean. Qed.
+Print Assumptions C03_builtin_boolean_iso.
+Theorem C03_builtin_symbol_iso : GcIsoCall.bsim Builtins.other_builtin 89.
+Proof. exact GcIsoBuiltin.bsim_symbol. Qed.
+Print Assumptions C03_builtin_symbol_iso.
+Theorem C03_builtin_vector_iso : GcIsoCall.bsim Builtins.other_builtin 90.
+Proof. exact GcIsoBuiltin.bsim_vector. Qed.
+Print Assumptions C03_builtin_vector_iso.
+Theorem C03_builtin_port_iso : GcIsoCall.bsim Builtins.other_builtin 86.
+Proof. exact GcIsoBuiltin.bsim_port. Qed.
+Print Assumptions C03_builtin_port_iso.
+Theorem C03_builtin_call_cc_iso : forall ob, GcIsoCall.bsim ob 97.
+Proof. exact GcIsoBuiltin.bsim_call_cc. Qed.
+Print Assumptions C03_builtin_call_cc_iso.
+
+(* OPEN (c03c): the collector on an arbitrary world.  Under [gc_natural s2] (no VLexPtr / VIp in
+   a heap cell, no VLexEnv value outside a heap cell, global slots are pointers or carry no
+   address: the invariant under which the collector's edges are the natural ones) a collection
+   on s2 keeps the relation for the world shrunk to the addresses whose image is reachable.
+   Proved only for tight worlds (C03_collect_srel).  Without the invariant the statement is
+   false: a live cell holding VLexPtr e i keeps e alive in W but the collector frees wf W e. *)
+Definition C03_collect_shrink_stmt : Prop :=
+  forall W s1 s2 vd fuel order h',
+  GcIso.srel W s1 s2 -> GcIsoSched2.gc_natural s2 -> GcIsoSched.reach_allocated s2 ->
+  no_used (hp s2) -> Permutation order (map fst (g_bind s2)) ->
+  collect vd fuel order s2 = Ok h' ->
+  exists W', (forall a, GcIso.wa W' a -> GcIso.wa W a /\ GcIso.wf W' a = GcIso.wf W a /\ reach s2 (GcIso.wf W a))
+             /\ GcIso.srel W' s1 (VmBase.with_heap s2 h').
